@@ -105,3 +105,14 @@ package frame
 //@   requires fits: len(frame.Body) <= 2147483647
 //@   let w0 = written(dest)
 //@   ensures declared: result == nil ==> Z(frame.Header.BodyLength) == Z(len(frame.Body)) && written(dest) == w0 + ite(frame.Header.Version >= primitive.ProtocolVersion3, int(9), int(8)) + len(frame.Body)
+
+// ---- C15: what connection code may rely on from a frame codec --------------------------------------------------
+//@ iface Codec.EncodeFrame
+//@   prop C15, C18
+//@   assigns wstream(dest), frame.Header.BodyLength
+
+// constructors: a nil compressor means "no compression"; the result is never nil
+//@ func NewRawCodecWithCompression
+//@   prop C15
+//@   nilable compressor
+//@   ensures nonnil: result != nil
